@@ -65,3 +65,11 @@ e1("C03", "Translation validation over call histories: objects with fields that 
           "are compared before/after (also when the call fails). Histories are enumerated/seeded up to the stated length.",
    "translation validation per call of a history: z3 equivalence with the reference under the current non-random state; before/after observation of non-random fields",
    "DESIGN.md section 6 C03")
+
+e1("C05", "Translation validation of soft-constraint handling: for each enumerated/seeded program mixing hard and soft constraints (pairwise and "
+          "three-way conflicts, nesting under if/else-if/else/implies, hard-before/after-soft bodies, class and inline), z3 decides for all "
+          "random-field values that (1) the hard formula is unaffected by softs and failure happens iff the hard constraints are unsatisfiable, "
+          "(2) every soft node handed to the solver equals `guards => soft` of the reference, (3) no un-enforced soft is consistent with hard + "
+          "enforced softs, (4) the enforced set gives the same solution space as the exact greedy-by-priority reference where the property fixes "
+          "the order, and (5) on the returned values no violated soft could have been honoured.",
+   "translation validation + solver-trace analysis: z3 equivalence of soft nodes and of the enforced set with a greedy-by-priority reference", "DESIGN.md section 6 C05")
